@@ -188,7 +188,7 @@ def events_of(dev):
 class FaultCheck:
     """C06: one faulty unit -> exactly one error, no handler for it, units before it normal, units after it all or none,
     other messages unaffected; through run (one buffer) and through process"""
-    KINDS = ['invalid-byte', 'undefined-mnemonic', 'query-mismatch', 'extra-parameter', 'missing-parameter', 'wrong-kind', 'out-of-range', 'handler-error']
+    KINDS = ['invalid-byte', 'undefined-mnemonic', 'query-mismatch', 'extra-parameter', 'missing-parameter', 'wrong-kind', 'out-of-range', 'handler-error', 'malformed-block']
 
     def __init__(s, world, params):
         s.w, s.ex = world, world.ex
@@ -238,6 +238,12 @@ class FaultCheck:
             val = sum((z3.ZeroExt(8, x) - 48) * m for x, m in zip(d, (100, 10, 1)))
             ex.solver.add(z3.UGT(val, 255))
             return list(b':U? ') + d, None, None, None
+        if k == 'malformed-block':
+            # a definite-length block whose length field is not a digit (any byte but a digit and LF), or whose digit count is not a digit
+            b = z3.BitVec('fk' + sfx, 8)
+            ex.solver.add(z3.Not(in_range(b, 48, 57)), b != 10)
+            v = ex.decide([(0, True), (1, True)])
+            return list(A + b'K #1') + [b] if v == 0 else list(A + b'K #') + [b] + list(b'1'), None, None, None
         if k == 'handler-error':
             n = z3.BitVec('fn' + sfx, 16)
             return list(A + b'B'), 0, ('custom', n, list(b'bad')), ('Custom', n, b'bad')
